@@ -378,12 +378,18 @@ class HistogramBase(abc.ABC):
         if self.dtype is None or np.can_cast(self.dtype, value):
             pass  # Ok
         elif check:
+            # The weight recorded outside the bins (where it is a number) changes type along
+            arrays = [self.frequencies, self.errors2]
+            missed = getattr(self, "_missed", None)
+            if missed is not None:
+                missed = np.asarray(missed)
+                arrays.append(missed[~np.isnan(missed.astype(float))])
             if np.issubdtype(value, np.integer):
                 if self.dtype.kind == "f":
-                    for array in (self.frequencies, self.errors2):
+                    for array in arrays:
                         if np.any(array % 1.0):
                             raise ValueError("Data contain non-integer values.")
-            for array in (self.frequencies, self.errors2):
+            for array in arrays:
                 if array.dtype.kind == "f" and np.issubdtype(value, np.integer):
                     # In the array's own float type the integer limits may round (2**31 - 1 to 2**31)
                     array = array.astype(np.longdouble)
